@@ -151,20 +151,36 @@ E2E_SPECS = [_arp("200/s", 200, 10 ** 9, "10.77.0.0/26"), _arp("25/100ms", 25, 1
              _pkt("udp", ["udp", "-p", "1-48", "10.99.0.1/32"]),
              _app("socks"), _app("docker"), _app("elastic")]
 N_ARP_SPECS = 7
+# a tcp scan with more than 200 port RANGES (450 single odd ports = 3 chunks of startPortScanEngine) under one --rate
+CHUNK_PORTS = ",".join(str(x) for x in range(1001, 1001 + 2 * 450, 2))
+E2E_SPECS.append({"cmd": "tcp syn (450 port ranges, 3 chunks)", "rate_str": "300/s", "rate": 300, "per": 10 ** 9,
+                  "iface": "v1", "match": "dstmac:" + GW,
+                  "args": ["tcp", "syn", "-p", CHUNK_PORTS, "10.99.0.1/32", "-i", "v0", "--gwmac", GW, "-a", "ARP"]})
+IDX_CHUNKS = len(E2E_SPECS) - 1
+# packet path at rates whose per-second value is fractional and below ~2/s: the process is stopped after `kill_after`
+# seconds (at the configured rate it would run for minutes); what was on the wire until then is judged
+for _r, _c, _w in (("1/m", 1, 60 * 10 ** 9), ("21/20s", 21, 20 * 10 ** 9)):
+    E2E_SPECS.append({"cmd": "arp (slow)", "rate_str": _r, "rate": _c, "per": _w, "iface": "v1", "match": "arp",
+                      "args": ["arp", "-i", "v0", "10.77.0.0/26"], "kill_after": 16.0, "idle": "60s", "total": "16500ms",
+                      "min_probes": 2})
+IDX_SLOW = [len(E2E_SPECS) - 2, len(E2E_SPECS) - 1]
+IDX_FAST = list(range(IDX_CHUNKS + 1))
 
 
-def e2e_runs(ctx, idxs):
+def e2e_runs(ctx, idxs, tag=""):
     """Real `sx <command> --rate R` binary in a private network namespace; probes timestamped by the kernel on the peer of
-    a veth pair (packet scans) or on the loopback interface (application scans: first SYN per destination port)."""
+    a veth pair (packet scans) or on the loopback interface (application scans: first SYN per destination port).
+    Several calls with different `tag`s may run in parallel (one namespace each)."""
     import subprocess
     rows = []
     exe = os.path.join(ctx.work, "sx")
-    if not os.path.exists(exe):
-        rc, out = verif.sh(["go", "build", "-o", exe, "."], env=verif.GOENV, cwd=verif.REPO, timeout=900)
-        if rc != 0:
-            ctx.broken.append(("correspondence: the sx binary does not build from the current tree", out[-1500:]))
-            return rows
-    ns = "vc15n%d" % os.getpid()
+    with _build_lock:
+        if not os.path.exists(exe):
+            rc, out = verif.sh(["go", "build", "-o", exe, "."], env=verif.GOENV, cwd=verif.REPO, timeout=900)
+            if rc != 0:
+                ctx.broken.append(("correspondence: the sx binary does not build from the current tree", out[-1500:]))
+                return rows
+    ns = "vc15n%d%s" % (os.getpid(), tag)
     cap_exe = os.path.join(verif.ROOT, "harness", "bin", "c15")
     arp = os.path.join(ctx.work, "arp.cache")
     with open(arp, "w") as f:
@@ -183,37 +199,106 @@ def e2e_runs(ctx, idxs):
         _t.sleep(0.3)
         for n, i in enumerate(idxs):
             sp = E2E_SPECS[i % len(E2E_SPECS)]
-            capf = os.path.join(ctx.work, "cap_%d.jsonl" % n)
+            capf = os.path.join(ctx.work, "cap%s_%d.jsonl" % (tag, n))
             cap = subprocess.Popen(["ip", "netns", "exec", ns, cap_exe, "-capture", sp["iface"], "-match", sp["match"],
-                                    "-out", capf, "-max", "4096", "-idle", "600ms", "-total", "40s"],
+                                    "-out", capf, "-max", "4096", "-idle", sp.get("idle", "600ms"),
+                                    "-total", sp.get("total", "40s")],
                                    stdout=subprocess.PIPE, stderr=subprocess.STDOUT, text=True, cwd=ctx.work)
             args = [arp if a == "ARP" else a for a in sp["args"]]
+            shown = " ".join(a if len(a) < 60 else a[:40] + "..." for a in sp["args"])
             o = {"kind": "e2e", "class": "e2e", "id": i % len(E2E_SPECS), "cmd": sp["cmd"], "rate_str": sp["rate_str"],
-                 "rate": sp["rate"], "per": sp["per"], "args": " ".join(sp["args"]), "ts": []}
+                 "rate": sp["rate"], "per": sp["per"], "args": shown, "ts": []}
             try:
                 line = cap.stdout.readline()
                 if line.strip() != "ready":
                     o["err"] = "capture did not start: " + line.strip()[:200]
                 else:
-                    rc, out = verif.sh(["ip", "netns", "exec", ns, exe] + args + ["--rate", sp["rate_str"], "--exit-delay", "30ms"],
-                                       timeout=120)
-                    o["sx_rc"] = rc
-                    if rc != 0:
-                        o["err"] = "sx %s failed: %s" % (sp["cmd"], out.strip()[-300:])
+                    cmdline = ["ip", "netns", "exec", ns, exe] + args + ["--rate", sp["rate_str"], "--exit-delay", "30ms"]
+                    if sp.get("kill_after"):
+                        pr = subprocess.Popen(cmdline, stdout=subprocess.DEVNULL, stderr=subprocess.PIPE, text=True)
+                        try:
+                            pr.wait(timeout=sp["kill_after"])
+                            o["sx_rc"] = pr.returncode
+                        except subprocess.TimeoutExpired:
+                            pr.kill()
+                            pr.wait()
+                            o["sx_rc"], o["stopped_after_s"] = 0, sp["kill_after"]
+                        if o["sx_rc"] != 0:
+                            o["err"] = "sx %s failed: %s" % (sp["cmd"], pr.stderr.read().strip()[-300:])
+                    else:
+                        rc, out = verif.sh(cmdline, timeout=120)
+                        o["sx_rc"] = rc
+                        if rc != 0:
+                            o["err"] = "sx %s failed: %s" % (sp["cmd"], out.strip()[-300:])
                 cap.wait(timeout=60)
                 if os.path.exists(capf):
                     got = ctx.read_jsonl(capf)
                     if got:
-                        o["ts"] = sorted(got[0]["ts"])
+                        o["ts"] = sorted(got[0]["ts"] or [])
                         o["other"] = got[0]["other"]
             except Exception as e:  # noqa: BLE001
                 o["err"] = "e2e run failed: %r" % (e,)
                 cap.kill()
-            if not o.get("err") and len(o["ts"]) < 16:
+            if not o.get("err") and len(o["ts"]) < sp.get("min_probes", 16):
                 o["err"] = "only %d probes captured" % len(o["ts"])
             rows.append(o)
     finally:
         verif.sh(["ip", "netns", "del", ns], timeout=20)
+    return rows
+
+
+import threading  # noqa: E402
+
+_build_lock = threading.Lock()
+
+
+def spec_slow(o):
+    """Application engine at about one probe per second, stopped after a few seconds: every window of consecutive
+    probe starts is judged, with 50 ms allowed for the delay between Take returning and the probe being recorded;
+    the window anchored at the start of the scan is judged exactly (the limiter cannot have granted before it)."""
+    if o.get("err"):
+        return o["err"]
+    p, ts = o["per"] // o["rate"], o["starts"]
+    for j, t in enumerate(ts):
+        if t < (j - SLACK) * p:
+            return ("application scan --rate %s, %d workers: probe number %d started %.2f s after the scan began; the rate "
+                    "allows no less than (%d-%d)*%.3f s = %.2f s" % (o["rate_str"], o["workers"], j + 1, t / 1e9, j, SLACK,
+                                                                     p / 1e9, (j - SLACK) * p / 1e9))
+    for i in range(len(ts)):
+        for j in range(i + 1, len(ts)):
+            if ts[j] - ts[i] < (j - i - SLACK) * p - 50 * 10 ** 6:
+                return ("application scan --rate %s, %d workers: %d consecutive probes were started within %.2f s; the rate "
+                        "allows no less than %.2f s" % (o["rate_str"], o["workers"], j - i + 1, (ts[j] - ts[i]) / 1e9,
+                                                        (j - i - SLACK) * p / 1e9))
+    return None
+
+
+SPEC["slow"] = spec_slow
+
+
+def slow_stage(ctx, cap_s=12):
+    """Rates whose per-second value is fractional (1/m, 21/20s, 41/20s, 61/20s, 1/15s, 81/20s) through the real
+    newScanEngine, all in parallel, at most cap_s seconds."""
+    ok, _ = ctx.harness_run("c15", ["-out", "slow.jsonl", "-slow", "%ds" % cap_s], timeout=cap_s + 60)
+    return ctx.read_jsonl(os.path.join(ctx.work, "slow.jsonl")) if ok else []
+
+
+def deep_stage(ctx, with_fast=True):
+    """Wall-clock stages of the failing-input search / thorough tier, run side by side: the fractional-rate engine runs,
+    the slow packet-path runs, and every command of the real binary in three namespaces."""
+    from concurrent.futures import ThreadPoolExecutor
+    jobs = {}
+    with ThreadPoolExecutor(max_workers=6) as ex:
+        jobs["slow"] = ex.submit(slow_stage, ctx)
+        jobs["slowpkt"] = ex.submit(e2e_runs, ctx, IDX_SLOW[:1], "s")
+        jobs["slowpkt2"] = ex.submit(e2e_runs, ctx, IDX_SLOW[1:], "t")
+        if with_fast:
+            third = (len(IDX_FAST) + 2) // 3
+            for g in range(3):
+                jobs["fast%d" % g] = ex.submit(e2e_runs, ctx, IDX_FAST[g * third:(g + 1) * third], "f%d" % g)
+    rows = []
+    for k in sorted(jobs):
+        rows += jobs[k].result()
     return rows
 
 
@@ -342,7 +427,14 @@ def run(ctx):
                       nontrivial=bool(o.get("ops") or o.get("scans") or o.get("sent")),
                       sample={k: (v[:6] if isinstance(v, list) else v) for k, v in o.items() if k not in ("kind",)})
     if os.path.exists(os.path.join(verif.ROOT, "harness", "bin", "c15")):
-        erows = e2e_runs(ctx, [(ctx.seed + d) % N_ARP_SPECS for d in (0, 2, 5)] if quick else list(range(len(E2E_SPECS))) + list(range(N_ARP_SPECS)) * 2)
+        erows = e2e_runs(ctx, [(ctx.seed + d) % N_ARP_SPECS for d in (0, 2, 5)]) if quick else deep_stage(ctx)
+        srows = [o for o in erows if o["kind"] == "slow"]
+        erows = [o for o in erows if o["kind"] == "e2e"]
+        for o in srows:
+            ctx.count("slow:" + o["rate_str"], ("slow", o["rate_str"], o["scans"]), nontrivial=o["scans"] >= 2,
+                      sample={"rate": o["rate_str"], "workers": o["workers"], "probes_started": o["scans"],
+                              "first_starts_ns": (o.get("starts") or [])[:6]})
+        rows += srows
         for o in erows:
             if o.get("err"):
                 ctx.skipped.append("e2e sx %s --rate %s: %s" % (o["cmd"], o["rate_str"], o["err"]))
@@ -377,14 +469,18 @@ def run(ctx):
                 ctx.broken.append(("correspondence: wrapper case wrap,%d: %s" % (o["id"], CODES[2]),
                                    json.dumps({"ops": o["ops"], "log": o["log"]})[:300]))
             ctx.cov["traces_validated_against_impl"] += len(l) + len(w)
-    if ctx.broken and not ctx.findings and os.path.exists(os.path.join(verif.ROOT, "harness", "bin", "c15")):
+    if ctx.broken and not ctx.findings and os.path.exists(os.path.join(verif.ROOT, "harness", "bin", "c15")) \
+            and not any("harness c15 does not build" in w for w, _ in ctx.broken):
         # a proof or a tie broke: look harder for a concrete input on which the real code breaks the property
-        for sd in (ctx.seed + 101, ctx.seed + 202):
-            a2 = {"seed": sd, "k": 400}
-            more = run_harness(ctx, "search.jsonl", sd, 1500, 300, 10, 7, k=400, timeout=900)
-            more += [o for o in e2e_runs(ctx, range(len(E2E_SPECS))) if not o.get("err")]
-            if judge(ctx, [o for o in more if o["kind"] != "lim" or o.get("parse_ok")], a2):
-                break
+        sd = ctx.seed + 101
+        a2 = {"seed": sd, "k": 400}
+        more = run_harness(ctx, "search.jsonl", sd, 600, 300, 10, 7, k=400, timeout=300)
+        if not judge(ctx, [o for o in more if o["kind"] != "lim" or o.get("parse_ok")], a2):
+            deep = deep_stage(ctx)
+            for o in deep:
+                if o.get("err") and o["kind"] == "e2e":
+                    ctx.skipped.append("e2e sx %s --rate %s: %s" % (o["cmd"], o["rate_str"], o["err"]))
+            judge(ctx, [o for o in deep if not (o.get("err") and o["kind"] == "e2e")], a2)
     return ctx.finish(rule=RULE)
 
 
@@ -396,6 +492,12 @@ def replay(ctx, path):
     i = r["input"]
     if not ctx.harness_build("c15"):
         return 1
+    if i["kind"] == "slow":
+        ok, out = ctx.harness_run("c15", ["-out", "one.jsonl", "-slow", "12s", "-slowonly", i["id"]], timeout=120)
+        o = ctx.read_jsonl(os.path.join(ctx.work, "one.jsonl"))[0] if ok else {"err": out[-300:]}
+        why = spec_slow(o)
+        print("replay application scan --rate %s: %s" % (i.get("rate"), why or "property holds on this run"))
+        return 1 if why else 0
     if i["kind"] == "e2e":
         got = e2e_runs(ctx, [i["id"]])
         why = spec_e2e(got[0]) if got else None
